@@ -404,8 +404,14 @@ switchpos:
 		case token.AndNot:
 			return bval &^ v, nil
 		case token.Shl:
+			if v < 0 {
+				return nil, ErrType.NewError("negative shift count")
+			}
 			return bval << v, nil
 		case token.Shr:
+			if v < 0 {
+				return nil, ErrType.NewError("negative shift count")
+			}
 			return bval >> v, nil
 		case token.Less:
 			return Bool(bval < v), nil
